@@ -38,6 +38,11 @@ class Ref:
                 ops = [x[1] if E.kind(x) == 'tok' else x[3][1] for x in alt[1] if E.kind(x) == 'tok' or (E.kind(x) == 'named' and E.kind(x[3]) == 'tok')]
                 self.level1.append(ops[0])
         self.named = kind == 'named'
+        self.tag = None
+        if kind == 'tagged':
+            alt0 = first[1][0]
+            self.tag = E.const_value(alt0[1][0][1])
+            self.level1 = [x[1] for x in alt0[1] if E.kind(x) == 'tok'][:1]
         atom_rule = self.rules.get('factor', self.rules['term']) if kind in ('rightmix', 'unary', 'layered') else self.rules['term']
         self.atom_has_paren = E.kind(atom_rule) == 'choice' and any(E.kind(a) == 'seq' and a[1][0] == ('tok', '(') for a in atom_rule[1])
         self.atom_ident = self.atom_has_paren   # the richer atom also accepts identifiers
@@ -120,6 +125,8 @@ class Ref:
                 break
             if self.named:
                 v = {'dict': {'left': v, 'op': t[i], 'right': r2[0]}}
+            elif self.tag is not None:
+                v = [self.tag, v, t[i], r2[0]]
             else:
                 v = [v, t[i], r2[0]]
             i = r2[1]
@@ -141,7 +148,7 @@ class Ref:
         return ('ok', v)
 
 
-REF_KINDS = {'direct', 'direct2', 'named', 'rightmix', 'unary', 'layered', 'aliased', 'postfix', 'optcall'}
+REF_KINDS = {'direct', 'direct2', 'named', 'rightmix', 'unary', 'layered', 'aliased', 'postfix', 'optcall', 'tagged'}
 
 
 def all_op_strings(maxlen):
